@@ -229,9 +229,15 @@ def unique_with_index(a):
     c.add_index(K, K - 1)
     vals = SymArr.fresh((K,), lambda k: uniq(k), "int", a.dtype)
     idxs = SymArr.fresh((K,), lambda k: first(k), "int", _np.intp)
-    rec = {"K": K, "uniq": uniq, "first": first, "grp": grp, "a": snap, "n": n}
+    # return_counts: counts[k] = CNT(uniq[k], n) with the counting function CNT(v, i) = #{t < i : a[t] == v}
+    CNT = z3.Function(fresh_name("uq_cnt"), z3.IntSort(), z3.IntSort(), z3.IntSort())
+    c.assume_forall("unique.count.base", lambda v: CNT(v, 0) == 0)
+    c.assume_forall("unique.count.step", lambda v, i: z3.Implies(z3.And(0 <= i, i < n), CNT(v, i + 1) == CNT(v, i) + z3.If(snap(i) == v, 1, 0)), arity=2)
+    c.assume_forall("unique.count.nonneg (a count)", lambda v, i: z3.Implies(z3.And(0 <= i, i <= n), CNT(v, i) >= 0), arity=2)
+    counts = SymArr.fresh((K,), lambda k: CNT(uniq(k), n), "int", _np.intp)
+    rec = {"K": K, "uniq": uniq, "first": first, "grp": grp, "a": snap, "n": n, "CNT": CNT}
     c.ghost.setdefault("uniques", []).append(rec)
-    return vals, idxs
+    return vals, idxs, counts
 
 
 def bincount(x, weights, minlength):
